@@ -279,7 +279,7 @@ Qed.
 
 Lemma scall_value_bal c o arg s s' : scall_value scl c o arg s = Ok s' -> nfr s' = nfr s.
 Proof.
-  unfold scall_value. destruct o as [[| |body|]|]; try discriminate.
+  unfold scall_value. destruct o as [[| |body clo|]|]; try discriminate.
   unfold smacro. intros H. apply bind_ok in H as (a & _ & H2). inversion H2; reflexivity.
 Qed.
 
@@ -315,11 +315,12 @@ Proof.
   - apply bind_ok in H as (s2 & H1 & H2). apply import_scope_bal in H1.
     destruct (frames (svars s2)) as [|ex r] eqn:Ef; [discriminate|].
     apply sstore_all_bal in H2. rewrite H2. unfold nfr in *. cbn in *. rewrite Ef in H1. cbn in H1. lia.
-  - destruct (lookup m (svars s)) as [[| | |kvs]|]; try discriminate; try (inversion H; reflexivity).
+  - destruct (lookup m (svars s)) as [[| | |kvs capm]|]; try discriminate; try (inversion H; reflexivity).
     apply bind_ok in H as (a & _ & H2). inversion H2; reflexivity.
-  - destruct (lookup m (svars s)) as [[| | |kvs]|]; try discriminate.
+  - destruct (lookup m (svars s)) as [[| | |kvs capm]|]; try discriminate.
     destruct (assoc f kvs); [|discriminate]. eapply scall_value_bal; eassumption.
-  - destruct (lookup m (svars s)) as [[| | |kvs]|]; try discriminate; inversion H; reflexivity.
+  - destruct (lookup m (svars s)) as [[| | |kvs capm]|]; try discriminate; inversion H; reflexivity.
+  - apply bind_ok in H as (s2 & H1 & H2). apply Hbal in H1. apply sset_bal in H2. rewrite H2. exact H1.
 Qed.
 
 Lemma slist_bal lvl0 q c cur its : forall s s', slist E scl lvl0 q c cur its s = Ok s' -> nfr s' = nfr s.
@@ -564,16 +565,16 @@ Lemma sim_call_value c cur o arg h s : good h c cur ->
   call_value None icl o arg (emb h s) = omap (emb h) (scall_value scl c o arg s).
 Proof.
   intros [Hm _]. unfold call_value, scall_value.
-  destruct o as [[| |body|]|]; try reflexivity.
+  destruct o as [[| |body clo|]|]; try reflexivity.
   unfold call_macro, smacro. cbn [depth_ok andb].
   set (h1 := mkHid (h_blocks h) (h_loaded h) true [] (outer (emb h s) + Z.of_nat (length (frames (vars (emb h s)))) + 4)).
-  set (s0 := mkSst (mkVenv (root (svars s)) [[(v_param, str_of arg)]; []]) []).
-  change (mkIst (blocks (emb h s)) (loaded (emb h s)) [Some []] (mkVenv (root (vars (emb h s))) [[(v_param, str_of arg)]; []])
+  set (s0 := mkSst (mkVenv (root (svars s)) [[(v_param, str_of arg)]; clo]) []).
+  change (mkIst (blocks (emb h s)) (loaded (emb h s)) [Some []] (mkVenv (root (vars (emb h s))) [[(v_param, str_of arg)]; clo])
                (outer (emb h s) + Z.of_nat (length (frames (vars (emb h s)))) + 4)) with (emb h1 s0).
   assert (Hg : good h1 c None) by (split; [exact Hm|exact I]).
   pose proof (HB false c None body h1 s0 Hg eq_refl) as Hcall. cbn [option_map] in Hcall. rewrite Hcall.
-  destruct (scl (SBody false c None body) s0) as [s2| | |]; cbn; try reflexivity.
-  apply emit_emb.
+  destruct (scl (SBody false c None body) s0) as [s2| | |]; cbn [bind omap]; try reflexivity.
+  change (outs (emb h1 s2)) with [Some (sout s2)]. cbn iota. apply emit_emb.
 Qed.
 
 (* ---- loops, stores ---- *)
@@ -664,14 +665,14 @@ Proof.
     apply sstore_all_out in Es4. cbn in Es4.
     unfold end_capture, emb. cbn. rewrite Es4. reflexivity.
   - (* IPrintAttr *) change (vars (emb h s)) with (svars s).
-    destruct (lookup m (svars s)) as [[| | |kvs]|]; try reflexivity.
+    destruct (lookup m (svars s)) as [[| | |kvs capm]|]; try reflexivity.
     destruct (printed (assoc x kvs)) as [t| | |]; cbn [bind omap keep]; try reflexivity. rewrite emit_emb. reflexivity.
   - (* ICallAttr *) change (vars (emb h s)) with (svars s).
-    destruct (lookup m (svars s)) as [[| | |kvs]|]; try reflexivity.
+    destruct (lookup m (svars s)) as [[| | |kvs capm]|]; try reflexivity.
     destruct (assoc f kvs) as [v|]; [|reflexivity].
     rewrite (sim_call_value c cur (Some v) arg h s Hg). apply keep_omap.
   - (* IKeys *) change (vars (emb h s)) with (svars s).
-    destruct (lookup m (svars s)) as [[| | |kvs]|]; try reflexivity.
+    destruct (lookup m (svars s)) as [[| | |kvs capm]|]; try reflexivity.
     rewrite push_frame_emb. cbn [bind]. rewrite emit_emb, emit_keys_eq. reflexivity.
 Qed.
 
@@ -1166,7 +1167,7 @@ Qed.
 
 Lemma lrel_call_value o arg s : lrel (call_value (Some L) call1 o arg s) (call_value None call2 o arg s).
 Proof.
-  unfold call_value. destruct o as [[| |body|]|]; try apply lrel_refl.
+  unfold call_value. destruct o as [[| |body clo|]|]; try apply lrel_refl.
   unfold call_macro. cbn [depth_ok andb].
   destruct ((0 + Z.of_nat 2 <=? L) && _)%bool; [|left; reflexivity].
   repeat lb.
@@ -1194,9 +1195,9 @@ Proof.
     apply lrel_bind; [apply lrel_include|]. intros; apply lrel_refl.
   - (* IFrom *) apply lrel_keep. apply lrel_bind; [apply lrel_push|]. intros s1.
     apply lrel_bind; [apply lrel_include|]. intros; apply lrel_refl.
-  - (* ICallAttr *) apply lrel_keep. destruct (lookup m (vars s)) as [[| | |kvs]|]; try apply lrel_refl.
+  - (* ICallAttr *) apply lrel_keep. destruct (lookup m (vars s)) as [[| | |kvs capm]|]; try apply lrel_refl.
     destruct (assoc f kvs); [apply lrel_call_value|apply lrel_refl].
-  - (* IKeys *) apply lrel_keep. destruct (lookup m (vars s)) as [[| | |kvs]|]; try apply lrel_refl;
+  - (* IKeys *) apply lrel_keep. destruct (lookup m (vars s)) as [[| | |kvs capm]|]; try apply lrel_refl;
       (apply lrel_bind; [apply lrel_push|intros; apply lrel_refl]).
 Qed.
 
@@ -1315,7 +1316,7 @@ Qed.
 
 Lemma call_value_outer o arg s s' : call_value lim call o arg s = Ok s' -> outer s' = outer s.
 Proof.
-  unfold call_value. destruct o as [[| |body|]|]; try discriminate.
+  unfold call_value. destruct o as [[| |body clo|]|]; try discriminate.
   unfold call_macro. destruct (_ && _)%bool; [|discriminate].
   intros H. apply bind_ok in H as (s2 & _ & H). destruct (outs s2) as [|[cap|] [|? ?]]; try discriminate.
   eapply emit_outer; eassumption.
@@ -1364,11 +1365,11 @@ Proof.
     inversion H; subst; clear H.
     apply push_frame_outer in H1. apply perform_include_outer in H2. apply pop_frame_outer in H3.
     apply store_all_outer in H4. apply end_capture_outer in H5. cbn in H1. lia.
-  - apply keep_ok in H. destruct (lookup m (vars s)) as [[| | |kvs]|]; try discriminate; try (inversion H; reflexivity).
+  - apply keep_ok in H. destruct (lookup m (vars s)) as [[| | |kvs capm]|]; try discriminate; try (inversion H; reflexivity).
     apply bind_ok in H as (t & _ & H). eapply emit_outer; eassumption.
-  - apply keep_ok in H. destruct (lookup m (vars s)) as [[| | |kvs]|]; try discriminate.
+  - apply keep_ok in H. destruct (lookup m (vars s)) as [[| | |kvs capm]|]; try discriminate.
     destruct (assoc f kvs); [eapply call_value_outer; eassumption|discriminate].
-  - apply keep_ok in H. destruct (lookup m (vars s)) as [[| | |kvs]|]; try discriminate.
+  - apply keep_ok in H. destruct (lookup m (vars s)) as [[| | |kvs capm]|]; try discriminate.
     + apply bind_ok in H as (s1 & _ & H). inversion H; reflexivity.
     + apply bind_ok in H as (s1 & _ & H). eapply emit_outer; eassumption.
     + apply bind_ok in H as (s1 & _ & H). inversion H; reflexivity.
@@ -1454,7 +1455,7 @@ Qed.
 
 Lemma call_value_loaded o arg s s' : call_value lim call o arg s = Ok s' -> loaded s' = loaded s.
 Proof.
-  unfold call_value. destruct o as [[| |body|]|]; try discriminate.
+  unfold call_value. destruct o as [[| |body clo|]|]; try discriminate.
   unfold call_macro. destruct (_ && _)%bool; [|discriminate].
   intros H. apply bind_ok in H as (s2 & _ & H). destruct (outs s2) as [|[cap|] [|? ?]]; try discriminate.
   eapply emit_loaded; eassumption.
@@ -1497,11 +1498,11 @@ Proof.
     inversion H; subst; clear H.
     apply push_frame_loaded in H1. apply include_keeps_record_proof in H2 as [H2 _]. apply pop_frame_loaded in H3.
     apply store_all_loaded in H4. apply end_capture_loaded in H5. cbn in H1. congruence.
-  - destruct (lookup m (vars s)) as [[| | |kvs]|]; try discriminate; try (inversion H; reflexivity).
+  - destruct (lookup m (vars s)) as [[| | |kvs capm]|]; try discriminate; try (inversion H; reflexivity).
     apply bind_ok in H as (t & _ & H). eapply emit_loaded; eassumption.
-  - destruct (lookup m (vars s)) as [[| | |kvs]|]; try discriminate.
+  - destruct (lookup m (vars s)) as [[| | |kvs capm]|]; try discriminate.
     destruct (assoc f kvs); [eapply call_value_loaded; eassumption|discriminate].
-  - destruct (lookup m (vars s)) as [[| | |kvs]|]; try discriminate.
+  - destruct (lookup m (vars s)) as [[| | |kvs capm]|]; try discriminate.
     + apply bind_ok in H as (s1 & _ & H). inversion H; reflexivity.
     + apply bind_ok in H as (s1 & _ & H). eapply emit_loaded; eassumption.
     + apply bind_ok in H as (s1 & _ & H). inversion H; reflexivity.
